@@ -108,6 +108,11 @@ class BGPPeering(BGPFactory):
         """
         LOG.info("[%s]Building a new BGP protocol instance", self.peer_addr)
 
+        if self.fsm.state == bgp_cons.ST_IDLE and not self.fsm.allow_automatic_start:
+            # manually stopped while this connection attempt was in flight:
+            # refuse the connection instead of starting a session
+            return None
+
         p = BGPFactory.buildProtocol(self, addr)
         if p is not None:
             self._initProtocol(p, addr)
